@@ -196,6 +196,8 @@ func init() {
 		for phase := 0; phase < 2; phase++ {
 			cases = append(cases, &stallCase{name: "gaps-longer-than-send-timeout", phase: phase, mode: "gaps", ct: 300 * time.Millisecond, st: 100 * time.Millisecond, rt: 2 * time.Second, mustSucceed: true})
 		}
+		// two pieces of a reply 700 ms apart with a receive time-out of 2.5 s: the reply is returned
+		cases = append(cases, &stallCase{name: "gap-of-700ms", phase: 1, mode: "longgap", ct: 300 * time.Millisecond, st: 300 * time.Millisecond, rt: 2500 * time.Millisecond, mustSucceed: true})
 		// a device that is slow but inside the time-outs: it answers the authentication and the request 300 ms after each
 		// arrives, the receive time-out is 500 ms — every exchange has its own time-out, the call succeeds
 		cases = append(cases, &stallCase{name: "slow-inside-timeouts", phase: 9, mode: "slow", ct: 300 * time.Millisecond, st: 500 * time.Millisecond, rt: 500 * time.Millisecond, mustSucceed: true})
@@ -275,6 +277,13 @@ func init() {
 								}
 								time.Sleep(40 * time.Millisecond)
 							}
+						case "longgap":
+							encReply()
+							b.Write(ct[:40])
+							time.Sleep(700 * time.Millisecond)
+							b.Write(ct[40:])
+							reqNo++
+							continue
 						case "gaps":
 							encReply()
 							for i := 0; i < len(ct); i += 24 {
